@@ -171,7 +171,36 @@ def run(ctx):
                         ctx.broken.append({'kind': 'correspondence', 'file': 'markup-tokenizer', 'input': s,
                                            'impl': repr(r)[:300], 'model': repr(m)[:300]})
         ctx.cov['correspondence']['markup_tokenizer'] = {'cases': len(cases), 'disagreements': dis}
+    long_digit_runs(ctx)
     c18_css.run_css(ctx)
+
+
+def long_digit_runs(ctx):
+    """Numbers longer than CPython converts (sys.get_int_max_str_digits(), 4300 by default) at every place a
+    tokenizer reads an integer: the property on the implementation alone -- the model's numbers are unbounded (Z), so
+    these inputs are outside the correspondence (repaired 59398b0: they escaped with ValueError)."""
+    n = 0
+    for k in (4299, 4300, 4301, 5000, 9000):
+        d = '7' * k
+        for s in ('p*' + d, 'a$@' + d, 'a$@-' + d + '*2', 'p{${' + d + '}}', 'a[b=${' + d + ':x}]', 'ul>li*' + d + '>a', d, 'a' + d):
+            r = impl_markup(s)
+            ctx.count_eval()
+            n += 1
+            bad = tiling_oracle(s, r)
+            ctx.cover('markup:long-digits-' + r[0])
+            if bad:
+                ctx.property_failure('markup-long:' + s[:12] + str(k), 'markup tokenize(%r + %d digits ...): %s' % (s[:8], k, bad),
+                                     {'component': 'markup', 'input': s, 'impl': repr(r)[:200], 'why': bad})
+        for s, v in (('p${' + d + '}', False), ('p:${' + d + ':x}', False), ('${' + d + '}', True), ('p' + d, False), ('#' + d, True)):
+            r = c18_css.impl_css(s, v)
+            ctx.count_eval()
+            n += 1
+            bad = c18_css.tiling_oracle(s, r)
+            ctx.cover('css:long-digits-' + r[0])
+            if bad:
+                ctx.property_failure('css-long:' + s[:12] + str(k), 'css tokenize(%r + %d digits ..., value=%s): %s' % (s[:6], k, v, bad),
+                                     {'component': 'css', 'input': s, 'is_value': v, 'impl': repr(r)[:200], 'why': bad})
+    ctx.cov['long_digit_run_inputs'] = n
 
 
 def replay(ctx, obj):
